@@ -341,6 +341,18 @@ fn simplifications(op: &Op) -> Vec<Op> {
                 out.push(Op::JCheck { t: *t, r: r.clone(), q: x, fin: *fin });
             }
         }
+        Op::PSearch { s, s2, q, q2, at } => {
+            if *at > 1 {
+                out.push(Op::PSearch { s: *s, s2: *s2, q: q.clone(), q2: q2.clone(), at: 1 });
+                out.push(Op::PSearch { s: *s, s2: *s2, q: q.clone(), q2: q2.clone(), at: *at / 2 });
+            }
+            for x in shrink_string(q) {
+                out.push(Op::PSearch { s: *s, s2: *s2, q: x, q2: q2.clone(), at: *at });
+            }
+            for x in shrink_string(q2) {
+                out.push(Op::PSearch { s: *s, s2: *s2, q: q.clone(), q2: x, at: *at });
+            }
+        }
         Op::Preempt { t, t2, jac, r, q, fin, r2, q2, fin2, at } => {
             let mk = |r: &String, q: &String, r2: &String, q2: &String, at: usize| Op::Preempt { t: *t, t2: *t2, jac: *jac, r: r.clone(), q: q.clone(), fin: *fin, r2: r2.clone(), q2: q2.clone(), fin2: *fin2, at };
             if *at > 1 {
